@@ -418,6 +418,9 @@ CHECKS["C20"] = {
     "units": [py_unit("filters", "filters-" + r, ["--props", "C20", "--resources", r], timeout_s=6000) for r in ("accounts", "transactions", "volumes", "aggregated", "logs")],
 }
 
+CHECKS["C20"]["units"].append(py_unit("c20_rowinv", "c20-row-invariants", []))
+CHECKS["C20"]["explanation"] += " Row invariants: the statements the real store emits when it writes accounts and transactions with multi-segment addresses are captured, and the literal rows are compared with the reading the filter obligations assume (address_array = the segments of the address; sources / destinations / *_arrays = the ends of the postings and their exploded forms) — decided on concrete captured text, not by the solver."
+
 CHECKS["C19"]["units"].append(py_unit("filters", "filters-C19", ["--props", "C19", "--resources", "accounts,volumes,aggregated,transactions"], timeout_s=3000))
 CHECKS["C19"]["explanation"] += " Filtered reads: the C20 family of filter statements (balance / metadata / address sub-selects included), shared bucket and alone-in-bucket, is decided against a reference that only looks at this ledger's rows."
 
